@@ -1971,7 +1971,8 @@ class PseudoNetCDFFile(PseudoNetCDFSelfReg, object):
         if exclude:
             varkeys = list(set(list(self.variables)).difference(varkeys))
 
-        varkeys = varkeys + [k for k in self.getCoords() if k not in varkeys]
+        varkeys = varkeys + [k for k in self.getCoords()
+                             if k not in varkeys and k in self.variables]
 
         if inplace:
             outf = self
